@@ -23,6 +23,7 @@ TRUSTED_BASE = [
     "ocaml/proto.ml, ocaml/ops.ml, ocaml/main.ml (parse/convert/print only) + zarith 1.12",
     "harness/*.py: generators, implementation runners, canonicalisation, tolerance compare, property oracles, known-finding signatures",
     "oracle values for log10 / ln / 10** are computed by numpy in the harness and passed to the model as exact rationals",
+    "the decimal exponent handed to Fmt.fmt_e is proposed by the driver in floating point and validated by the model",
     "numpy / scipy / astropy / pickle / FITS themselves are exercised, not verified",
 ]
 
